@@ -38,6 +38,31 @@ pub fn run(rng: &mut Rng, out: &mut Fails) {
         if max(&d) != mxv { fail(out, "max", "C08.max", dinp.clone(), format!("{}", max(&d)), format!("{}", mxv)); }
         if argmin(&d) != amin { fail(out, "argmin", "C08.argmin.first", dinp.clone(), format!("{}", argmin(&d)), format!("{}", amin)); }
         if argmax(&d) != amax { fail(out, "argmax", "C08.argmax.first", dinp.clone(), format!("{}", argmax(&d)), format!("{}", amax)); }
+        // the Vector / Matrix methods forward to the same definitions (every shape of the same data)
+        {
+            use compute::prelude::{Matrix, Vector};
+            let vx = Vector::new(x.clone());
+            chk(out, "Vector::mean", "C08.mean", vx.mean(), off + mx, 1e-12);
+            chk(out, "Vector::var", "C08.var", vx.var(), sxx / nf, tol);
+            chk(out, "Vector::sample_var", "C08.sample_var", vx.sample_var(), sxx / (nf - 1.), tol);
+            chk(out, "Vector::std", "C08.std", vx.std(), (sxx / nf).sqrt(), tol);
+            chk(out, "Vector::sample_std", "C08.sample_std", vx.sample_std(), (sxx / (nf - 1.)).sqrt(), tol);
+            let vd = Vector::new(d.clone());
+            if vd.min() != mn || vd.max() != mxv { fail(out, "Vector::min/max", "C08.min", dinp.clone(), format!("{} {}", vd.min(), vd.max()), format!("{} {}", mn, mxv)); }
+            if vd.argmin() != amin || vd.argmax() != amax { fail(out, "Vector::argmin/argmax", "C08.argmin.first", dinp.clone(), format!("{} {}", vd.argmin(), vd.argmax()), format!("{} {}", amin, amax)); }
+            for r in 1..=n { if n % r != 0 { continue; }
+                let c = n / r;
+                let mxm = Matrix::new(x.clone(), r as i32, c as i32);
+                chk(out, "Matrix::mean", "C08.mean", mxm.mean(), off + mx, 1e-12);
+                chk(out, "Matrix::var", "C08.var", mxm.var(), sxx / nf, tol);
+                chk(out, "Matrix::sample_std", "C08.sample_std", mxm.sample_std(), (sxx / (nf - 1.)).sqrt(), tol);
+                let md = Matrix::new(d.clone(), r as i32, c as i32);
+                let minp = format!("shape {}x{} {}", r, c, dinp);
+                if md.min() != mn || md.max() != mxv { fail(out, "Matrix::min/max", "C08.min", minp.clone(), format!("{} {}", md.min(), md.max()), format!("{} {}", mn, mxv)); }
+                if md.argmin() != (amin / c, amin % c) { fail(out, "Matrix::argmin", "C08.argmin.first", minp.clone(), format!("{:?}", md.argmin()), format!("{:?}", (amin / c, amin % c))); }
+                if md.argmax() != (amax / c, amax % c) { fail(out, "Matrix::argmax", "C08.argmax.first", minp.clone(), format!("{:?}", md.argmax()), format!("{:?}", (amax / c, amax % c))); }
+            }
+        }
         // histogram bin centres, uniform and non-uniform
         let mut e = vec![rng.int(-5, 5)]; for _ in 0..n { let last = *e.last().unwrap(); e.push(last + 0.5 * (1 + rng.below(if case % 2 == 0 { 1 } else { 6 })) as f64); }
         let want: Vec<f64> = (0..e.len() - 1).map(|i| (e[i] + e[i + 1]) / 2.).collect();
